@@ -12,7 +12,7 @@ from allmydata.interfaces import InsufficientVersionError
 from allmydata.introducer.interfaces import IIntroducerClient, \
      RIIntroducerSubscriberClient_v2
 from allmydata.introducer.common import sign_to_foolscap, unsign_from_foolscap,\
-     get_tubid_string_from_ann
+     get_tubid_string_from_ann, UnknownKeyError
 from allmydata.util import log, yamlutil, connection_status
 from allmydata.util.rrefutil import add_version_to_remote_reference
 from allmydata.util.observer import (
@@ -251,7 +251,9 @@ class IntroducerClient(service.Service, Referenceable):
                 ann, key_s = unsign_from_foolscap(ann_t)
                 # key is "v0-base32abc123"
                 precondition(isinstance(key_s, bytes), key_s)
-            except BadSignature:
+            except (BadSignature, UnknownKeyError, ValueError, AssertionError):
+                # bad signature, unsigned/unknown-version announcement, or a
+                # malformed key, signature or message body
                 self.log("bad signature on inbound announcement: %s" % (ann_t,),
                          parent=lp, level=log.WEIRD, umid="ZAU15Q")
                 # process other announcements that arrived with the bad one
